@@ -12,6 +12,8 @@ package main
 //   bits   binary quantiser encode + hamming / jaccard vs the per-position definitions.
 //   float  a TEST (judged here, not in Coq): arbitrary floats incl. denormals and large
 //          magnitudes against a float64 reference under n*2^-23*sum|terms| + tiny.
+//   pq     product quantiser: centroid table, codes written after training, point to
+//          point and query to point distances (c20pq.go).
 
 import (
 	"fmt"
@@ -517,6 +519,10 @@ func runC20(rc *runCtx) error {
 	}
 	rc.stats["float_stream"] = map[string]any{"trials": nfl, "max_relative_error": maxRel, "at_length": worstN, "bound_violations": violations,
 		"note": "TEST judged by the harness: |asm - float64 reference| <= n*2^-23*sum|terms| + tiny"}
+	// ---------------- stream pq (c20pq.go)
+	if err := c20PQStream(rc, fs, note, hist); err != nil {
+		return err
+	}
 	for _, cf := range fs.files {
 		if err := cf.Close("bad"); err != nil {
 			return err
